@@ -21,6 +21,7 @@ var vhAttDigests = [2]string{"sha1-xxxxxxxxxxxxxxxxxxxxxxxxxxx=", "sha1-yyyyyyyy
 type vhAttStore struct {
 	base.DataStore
 	deleted []string
+	added   []string
 }
 
 func (s *vhAttStore) WriteUpdateWithXattrs(ctx context.Context, k string, xattrs []string, exp uint32, previous *sgbucket.BucketDocument, opts *sgbucket.MutateInOptions, callback sgbucket.WriteUpdateWithXattrsFunc) (uint64, error) {
@@ -29,6 +30,11 @@ func (s *vhAttStore) WriteUpdateWithXattrs(ctx context.Context, k string, xattrs
 		return 0, err
 	}
 	return 8, nil
+}
+
+func (s *vhAttStore) AddRaw(ctx context.Context, k string, exp uint32, v []byte) (bool, error) {
+	s.added = append(s.added, k)
+	return true, nil
 }
 
 func (s *vhAttStore) Delete(ctx context.Context, k string) error {
@@ -42,6 +48,8 @@ type vhAttWorld struct {
 	hasLeaf   bool
 	newAtts   [2]bool // attachments of the new revision
 	tombstone bool
+	onBranch  bool    // the new revision goes onto the conflicting (non-winning) branch
+	uploaded  [2]bool // which of the new revision's attachments arrive with data (the others are stubs carried over from the parent)
 }
 
 var vhAtt *vhAttWorld
@@ -77,8 +85,57 @@ func vhAttGetRevision(c *DatabaseCollection, ctx context.Context, doc *Document,
 	if revid == "2-a" {
 		return []byte("{}"), vhAttMeta(vhAtt.leafAtts), nil, nil
 	}
+	if revid == doc.GetRevTreeID() {
+		// the real getRevision answers with the document-level attachment list for the current revision
+		return []byte("{}"), doc.Attachments(), nil, nil
+	}
+	if br, _ := vhAttBranchRev(vhAtt); vhAtt.onBranch && revid == br {
+		// a non-winning revision's attachments are read from its stored body; the harness hands back what the write stored
+		return []byte("{}"), vhAttStoredBranchAtts(doc, revid), nil, nil
+	}
 	vFail("harness: attachments requested for an unexpected revision")
 	return nil, nil, nil, nil
+}
+
+// vhAttBranchRev: the revision written by an on-branch write (child of the conflicting leaf, or a new conflicting leaf).
+func vhAttBranchRev(w *vhAttWorld) (rev, parent string) {
+	if w.hasLeaf {
+		return "3-a", "2-a"
+	}
+	return "2-a", "1-a"
+}
+
+// vhAttJSONMarshal stands in for base.JSONMarshal on this path: attachment metadata becomes a two-character token
+// naming the subset, anything else an opaque constant.
+func vhAttJSONMarshal(v any) ([]byte, error) {
+	if m, ok := v.(AttachmentsMeta); ok {
+		out := []byte(`"NN"`)
+		if _, has := m["x.txt"]; has {
+			out[1] = 'Y'
+		}
+		if _, has := m["y.txt"]; has {
+			out[2] = 'Y'
+		}
+		return out, nil
+	}
+	return []byte(`"?"`), nil
+}
+
+// vhAttStoredBranchAtts decodes what the write stored with a non-winning revision's body (the inverse of
+// vhAttJSONMarshal inside the body the real code built).
+func vhAttStoredBranchAtts(doc *Document, revid string) AttachmentsMeta {
+	info, err := doc.History.getInfo(revid)
+	if err != nil || info == nil {
+		return nil
+	}
+	b := info.Body
+	marker := `"` + BodyAttachments + `":"`
+	for i := 0; i+len(marker)+2 <= len(b); i++ {
+		if string(b[i:i+len(marker)]) == marker {
+			return vhAttMeta([2]bool{b[i+len(marker)] == 'Y', b[i+len(marker)+1] == 'Y'})
+		}
+	}
+	return nil
 }
 
 func vhAttSha256(key []byte) string { return "DOCHASH" }
@@ -108,6 +165,56 @@ func vhAttMarshal(doc *Document) (data, syncXattr, vvXattr, mouXattr, globalXatt
 	return []byte("{}"), []byte("{}"), nil, nil, nil, nil
 }
 
+func vhAttSetup() (*DatabaseCollectionWithUser, *vhAttStore) {
+	alloc, _ := vhNewAllocator(false)
+	vAssume(alloc.last >= 10)
+	dbStats := &base.DbStats{DatabaseStats: vhDBStats()}
+	dbStats.DatabaseStats.NumDocWrites, dbStats.DatabaseStats.DocWritesBytes, dbStats.DatabaseStats.DocWritesXattrBytes = &base.SgwIntStat{}, &base.SgwIntStat{}, &base.SgwIntStat{}
+	dbStats.DatabaseStats.ConflictWriteCount, dbStats.DatabaseStats.TombstoneCount = &base.SgwIntStat{}, &base.SgwIntStat{}
+	dbStats.CBLReplicationPushStats = &base.CBLReplicationPushStats{AttachmentPushCount: &base.SgwIntStat{}, AttachmentPushBytes: &base.SgwIntStat{}}
+	dbc := &DatabaseContext{sequences: alloc, RevsLimit: 1000, DbStats: dbStats, EventMgr: &EventManager{}}
+	store := &vhAttStore{}
+	col := &DatabaseCollectionWithUser{DatabaseCollection: &DatabaseCollection{dbCtx: dbc, dataStore: store, ScopeName: base.DefaultScope, Name: base.DefaultCollection}}
+	col.collectionStats = &base.CollectionStats{NumDocWrites: &base.SgwIntStat{}, DocWritesBytes: &base.SgwIntStat{}}
+	return col, store
+}
+
+// vhAttNewRevision draws the new revision's attachments: each is either uploaded with the write (data) or a stub carried
+// over from the parent revision (only possible if the parent has it).
+func vhAttNewRevision(w *vhAttWorld, parentHas [2]bool) {
+	w.newAtts = vhAttSubset()
+	for i := range w.newAtts {
+		if w.newAtts[i] {
+			w.uploaded[i] = vNondetBool()
+			vAssume(parentHas[i] || w.uploaded[i])
+		}
+	}
+}
+
+// vhAttUploads: what storeAttachments hands to the write for the uploaded attachments (keyed by attachment key).
+func vhAttUploads(w *vhAttWorld) updatedAttachments {
+	var up updatedAttachments
+	names := [2]string{"x.txt", "y.txt"}
+	for i, dg := range vhAttDigests {
+		if w.newAtts[i] && w.uploaded[i] {
+			if up == nil {
+				up = updatedAttachments{}
+			}
+			up[MakeAttachmentKey(AttVersion2, "doc", dg)] = updatedAttachment{body: []byte("data"), created: true, name: names[i]}
+		}
+	}
+	return up
+}
+
+func vhAttHas(keys []string, key string) bool {
+	for _, k := range keys {
+		if k == key {
+			return true
+		}
+	}
+	return false
+}
+
 func vhAttSubset() [2]bool { return [2]bool{vNondetBool(), vNondetBool()} }
 
 // VHarness_C14_ObsoleteSweep: one update (or tombstone) of the winning revision.
@@ -118,28 +225,20 @@ func VHarness_C14_ObsoleteSweep() {
 		w.leafAtts = vhAttSubset()
 	}
 	if !w.tombstone {
-		w.newAtts = vhAttSubset()
+		vhAttNewRevision(w, w.curAtts)
 	}
 	// a tombstone that hands the document over to the conflicting leaf promotes that leaf's stored body (JSON decoding):
 	// outside this harness
 	vAssume(!(w.tombstone && w.hasLeaf))
 	vhAtt = w
-	alloc, _ := vhNewAllocator(false)
-	vAssume(alloc.last >= 10)
-	dbStats := &base.DbStats{DatabaseStats: vhDBStats()}
-	dbStats.DatabaseStats.NumDocWrites, dbStats.DatabaseStats.DocWritesBytes, dbStats.DatabaseStats.DocWritesXattrBytes = &base.SgwIntStat{}, &base.SgwIntStat{}, &base.SgwIntStat{}
-	dbStats.DatabaseStats.ConflictWriteCount, dbStats.DatabaseStats.TombstoneCount = &base.SgwIntStat{}, &base.SgwIntStat{}
-	dbc := &DatabaseContext{sequences: alloc, RevsLimit: 1000, DbStats: dbStats, EventMgr: &EventManager{}}
-	store := &vhAttStore{}
-	col := &DatabaseCollectionWithUser{DatabaseCollection: &DatabaseCollection{dbCtx: dbc, dataStore: store, ScopeName: base.DefaultScope, Name: base.DefaultCollection}}
-	col.collectionStats = &base.CollectionStats{NumDocWrites: &base.SgwIntStat{}, DocWritesBytes: &base.SgwIntStat{}}
+	col, store := vhAttSetup()
 	callback := func(d *Document) (*Document, updatedAttachments, bool, *uint32, error) {
 		if err := d.History.addRevision(ctx, d.ID, RevInfo{ID: "4-c", Parent: "3-b", Deleted: w.tombstone}); err != nil {
 			return nil, nil, false, nil, err
 		}
 		nd := &Document{ID: d.ID, RevID: "4-c", Deleted: w.tombstone}
 		nd.SetAttachments(vhAttMeta(w.newAtts))
-		return nd, nil, false, nil, nil
+		return nd, vhAttUploads(w), false, nil, nil
 	}
 	_, _, err := col.updateAndReturnDoc(ctx, "doc", true, nil, nil, ExistingVersion, nil, false, false, callback)
 	vAssert(err == nil, "the write succeeds")
@@ -157,12 +256,83 @@ func VHarness_C14_ObsoleteSweep() {
 		before := w.curAtts[i] || (w.hasLeaf && w.leafAtts[i])
 		// after the write the leaves are 4-c (with the new revision's attachments) and, if present, 2-a
 		after := w.newAtts[i] || (w.hasLeaf && w.leafAtts[i])
+		if w.newAtts[i] && w.uploaded[i] {
+			vAssert(vhAttHas(store.added, key), "attachment data uploaded with the write is stored")
+		}
 		if after {
 			vCover("attachment-still-referenced")
 			vAssert(!deleted, "attachment data still referenced by a leaf revision is not removed")
 		}
 		if before && !after {
 			vCover("attachment-obsolete")
+			vAssert(deleted, "attachment data no longer referenced by any leaf revision is cleaned up")
+		}
+		if !before {
+			vAssert(!deleted, "nothing that was not referenced before the write is deleted")
+		}
+	}
+}
+
+// VHarness_C14_BranchWrite: a new revision (or tombstone) written onto the conflicting, non-winning branch - either a
+// child of the existing conflicting leaf 2-a, or a new conflicting leaf when there is none. The winning revision 3-b
+// stays current. Its attachments must stay listed on the document and their data must stay in the bucket; the new
+// leaf's attachments must be readable from where non-winning revisions' attachments are read from, and their data must
+// stay too; data referenced by neither leaf any more (the replaced leaf 2-a's) is cleaned up.
+func VHarness_C14_BranchWrite() {
+	ctx := context.Background()
+	w := &vhAttWorld{curAtts: vhAttSubset(), hasLeaf: vNondetBool(), tombstone: vNondetBool(), onBranch: true}
+	if w.hasLeaf {
+		w.leafAtts = vhAttSubset()
+	}
+	if !w.tombstone {
+		parentHas := [2]bool{}
+		if w.hasLeaf {
+			parentHas = w.leafAtts
+		}
+		vhAttNewRevision(w, parentHas)
+	}
+	vhAtt = w
+	col, store := vhAttSetup()
+	newRev, parent := vhAttBranchRev(w)
+	callback := func(d *Document) (*Document, updatedAttachments, bool, *uint32, error) {
+		if err := d.History.addRevision(ctx, d.ID, RevInfo{ID: newRev, Parent: parent, Deleted: w.tombstone}); err != nil {
+			return nil, nil, false, nil, err
+		}
+		nd := &Document{ID: d.ID, RevID: newRev, Deleted: w.tombstone}
+		nd.SetAttachments(vhAttMeta(w.newAtts))
+		return nd, vhAttUploads(w), false, nil, nil
+	}
+	doc, _, err := col.updateAndReturnDoc(ctx, "doc", true, nil, nil, ExistingVersion, nil, false, false, callback)
+	vAssert(err == nil, "the write succeeds")
+	if err != nil {
+		return
+	}
+	vAssert(doc.GetRevTreeID() == "3-b", "the winning revision stays current")
+	names := [2]string{"x.txt", "y.txt"}
+	stored := vhAttStoredBranchAtts(doc, newRev)
+	for i, dg := range vhAttDigests {
+		key := MakeAttachmentKey(AttVersion2, "doc", dg)
+		deleted := false
+		for _, k := range store.deleted {
+			if k == key {
+				deleted = true
+			}
+		}
+		_, listed := doc.Attachments()[names[i]]
+		vAssert(listed == w.curAtts[i], "the current revision's attachment list is untouched by a write on another branch")
+		_, onLeaf := stored[names[i]]
+		vAssert(onLeaf == w.newAtts[i], "the new non-winning revision's attachments are recorded with it")
+		before := w.curAtts[i] || (w.hasLeaf && w.leafAtts[i])
+		after := w.curAtts[i] || w.newAtts[i]
+		if w.newAtts[i] && w.uploaded[i] {
+			vAssert(vhAttHas(store.added, key), "attachment data uploaded with the write is stored")
+		}
+		if after {
+			vCover("branch-attachment-still-referenced")
+			vAssert(!deleted, "attachment data still referenced by a leaf revision is not removed")
+		}
+		if before && !after {
+			vCover("branch-attachment-obsolete")
 			vAssert(deleted, "attachment data no longer referenced by any leaf revision is cleaned up")
 		}
 		if !before {
